@@ -1030,10 +1030,10 @@ def _div_magnitude_points(eb, signed):
     for h in range(2, top):
         b = 1 << h
         fill = 0x5A5A5A5A5A5A5A5A & (b - 1)
-        for n in (b | fill, b + 2, (b << 1) - 2 if h + 1 < top or not signed else b + 6, b | (b >> 1) | 1):
+        for n in (b | fill, b + 2):
             if n > ((1 << (eb - 1)) - 1 if signed else M):
                 continue
-            for d in (1, 3, 7, 10):
+            for d in (1, 3):
                 out.append((n, d))
     return out
 
@@ -1071,6 +1071,8 @@ def judge_div_value(ctx, inst, S):
     if not (lanecheck.interpreted(S.ret) and lanecheck.interpreted(expected)) or S.ret[1] != expected[1]:
         return v, detail, rule, wit
     eb = vt.eb
+    # (the second clause gets its own work allowance: the first comparison may have used up the instance's)
+    T.set_budget(nodes=getattr(inst, "budget_nodes", 250000), seconds=getattr(inst, "budget_s", 6))
     la, lb = ctx.lanes("a"), ctx.lanes("b")
     am, em = [], []
     for i in range(vt.n):
